@@ -214,6 +214,18 @@ pub fn generate(rng: &mut Rng, thorough: bool) -> Vec<String> {
         v.push(format!("untildays {y1} {m1} {d1} {y2} {m2} {d2}"));
         v.push(format!("cmpdate {y1} {m1} {d1} {y2} {m2} {d2}"));
     }
+    // (4b) the longest offsets: from the first days to the last days and back (200 000 001 days is the longest legal
+    // distance), and one and two days beyond
+    for a in [LO, LO + 1, LO + 2, HI, HI - 1, HI - 2] {
+        let (y1, m1, d1) = ymd_of(a);
+        for target in [LO - 2, LO - 1, LO, LO + 1, HI - 1, HI, HI + 1, HI + 2] {
+            v.push(format!("adddays {y1} {m1} {d1} {}", target - a));
+        }
+        for k in [200_000_000i128, 200_000_001, 200_000_002, 200_000_003, 199_999_999] {
+            v.push(format!("adddays {y1} {m1} {d1} {k}"));
+            v.push(format!("adddays {y1} {m1} {d1} {}", -k));
+        }
+    }
     // (5) date-time <-> epoch ns
     let day_ns: i128 = 86_400_000_000_000;
     for _ in 0..(if thorough { 300_000 } else { 40_000 }) {
